@@ -10,6 +10,7 @@ Malformed files: wrong magic, unknown extension — ValueError and nothing else.
 ReplayParser(raw_data_output=...). Every chosen recording is re-wrapped and re-read.
 """
 import json
+import struct
 import os
 import zlib
 
@@ -32,6 +33,22 @@ def tmpfile(name):
     return os.path.join(run_dir(), '%d-%s' % (os.getpid(), name))
 
 
+def gen_prefix(rng, stream, level=6, strategy=zlib.Z_DEFAULT_STRATEGY):
+    """the 8 bytes before the ciphertext are not constrained by the format: random bytes, zeros, and words a reader might mistake for
+    sizes / counts (true sizes in either order, off-by-one sizes, small numbers, the block count)"""
+    n = len(stream)
+    packed = len(container.compress(stream, level, strategy))
+    words = [0, 1, 2, 7, 8, n, max(n - 1, 0), n + 1, n // 2, packed, max(packed - 1, 0), packed + 1, (packed + 7) // 8, 0xffffffff, 0x7fffffff, 0x80000000]
+    r = rng.random()
+    if r < 0.35:
+        return rng.randbytes(8)
+    if r < 0.45:
+        return bytes(8)
+    if r < 0.6:
+        return struct.pack('<II', *rng.choice([(n, packed), (packed, n), (n, n), (packed, packed)]))
+    return struct.pack('<II', rng.choice(words), rng.choice(words))
+
+
 def gen_case(rng, i):
     ext = EXTS[i % 3]
     n = i % 9 if i < 90 else rng.choice([0, 1, 7, 8, 9, 15, 16, 17, 100, 1000, 70000])
@@ -50,7 +67,7 @@ def gen_case(rng, i):
             extras.append(json.dumps(rng.choice([{'a': [1, 2, {'ü': None}]}, [1, 2, 3], 'str', 5, {'k': 'Ω'}]), ensure_ascii=rng.random() < 0.5).encode('utf-8'))
     level = rng.randint(0, 9)
     strategy = rng.choice([zlib.Z_DEFAULT_STRATEGY, zlib.Z_FILTERED, zlib.Z_HUFFMAN_ONLY, zlib.Z_RLE, zlib.Z_FIXED])
-    prefix = rng.randbytes(8)
+    prefix = gen_prefix(rng, stream, level, strategy)
     pad = bytes([rng.choice([0, 0xff, 7])])
     return dict(ext=ext, stream=stream, engine=raw_engine, extras=extras, level=level, strategy=strategy, prefix=prefix, pad=pad)
 
@@ -167,7 +184,7 @@ def _rewrap(args):
     ext = path.rsplit('.', 1)[-1]
     raw_engine = json.dumps(info.engine_data, ensure_ascii=False).encode('utf-8')
     extras = [json.dumps(e, ensure_ascii=False).encode('utf-8') if e is not None else b'' for e in info.extra_data]
-    data = container.write_container(ext, raw_engine, extras, info.decrypted_data, level=rng.randint(0, 9), prefix=rng.randbytes(8))
+    data = container.write_container(ext, raw_engine, extras, info.decrypted_data, level=6, prefix=gen_prefix(rng, info.decrypted_data))
     out = tmpfile('rewrapped.' + ext)
     with open(out, 'wb') as f:
         f.write(data)
